@@ -516,6 +516,11 @@ def derive (parent extra : Constr) : Constr :=
   | .mk .intersection ops => .mk .intersection (ops.append (.con extra .nil))
   | p => .mk .intersection (.con p (.con extra .nil))
 
+/-- `subtype()` without a `subtypeSpec` argument keeps the constraint set -/
+def deriveOpt (c : Constr) : Option Constr → Constr
+  | some e => derive c e
+  | none => c
+
 def deriveChain (parent : Constr) : List Constr → Constr
   | [] => parent
   | e :: es => deriveChain (derive parent e) es
@@ -525,6 +530,7 @@ def deriveChain (parent : Constr) : List Constr → Constr
 structure STy where
   tags : TagSet
   spec : Constr
+deriving DecidableEq
 
 /-- `TagSet.isSuperTagSetOf`: own tags are a prefix of the other's (tags compare on class+id) -/
 def isSuperTagSetOf (a b : TagSet) : Bool :=
@@ -544,9 +550,7 @@ inductive Tagging
 /-- `subtype(implicitTag=…/explicitTag=…, subtypeSpec=…)` on the type level;
     `none` = `tagExplicitly` refuses a UNIVERSAL tag -/
 def STy.subtype (t : STy) (tg : Tagging) (extra : Option Constr) : Option STy :=
-  let spec := match extra with
-    | some e => derive t.spec e
-    | none => t.spec
+  let spec := deriveOpt t.spec extra
   match tg with
   | .none => some ⟨t.tags, spec⟩
   | .explicit c n => (t.tags.tagExplicitly c n).map fun ts => ⟨ts, spec⟩
@@ -631,6 +635,7 @@ def atomOf : Sexp → Option Atom
   | .list [.atom "i", .atom x] => x.toInt?.map .int
   | .list [.atom "s", .atom x] => (codesOf x).map .str
   | .list [.atom "b", .atom x] => (codesOf x).map .bytes
+  | .atom x => x.toInt?.map .int
   | _ => none
 
 def clsOfName : String → Option Cls
